@@ -45,6 +45,9 @@ def main(argv):
     except Unanalysable as u:
         chk.violation("%s/unanalysable/%s" % (pid, u.what[:120]), "reason=unanalysable: %s" % u.what,
                       {"where": u.where, "trace": traceback.format_exc()[-1500:]})
+    except SystemExit as e:    # fail closed: the facts could not be produced (the tree does not build,
+        # or the driver cannot process it): nothing was decided, which is never a pass
+        chk.violation("%s/facts-unavailable" % pid, "reason=unanalysable: %s" % (e.code,), {"detail": str(e.code)})
     except Exception as e:     # fail closed: an analyser crash is never a pass
         chk.violation("%s/internal-error/%s" % (pid, type(e).__name__), "reason=unanalysable (analyser error): %r" % (e,),
                       {"trace": traceback.format_exc()[-3000:]})
